@@ -187,6 +187,20 @@ def run_names_case(case):
             out.append(('names:undefined-message', "names 'Qq'", str(e), 'AttributeError does not name the undefined identifier'))
     except Exception as e:
         out.append(('names:undefined-class', 'AttributeError', type(e).__name__, 'undefined name raised the wrong exception'))
+    # ... whatever else is in the container: variables that differ only in case, names close to several variables
+    c3, _ = make_container(kind)
+    for extra in ('x', 'y', 'Yy', 'XY'):
+        c3.add_variable(extra, 1.0)
+    for undefined in ('yy', 'YY', 'xx', 'Xy', 'cons', 'x_', 'Z'):
+        try:
+            c3.eval('%s + 1' % undefined)
+            out.append(('names:undefined-accepted', 'AttributeError', 'value', 'undefined name %r did not raise' % undefined))
+        except AttributeError as e:
+            if undefined not in str(e):
+                out.append(('names:undefined-message', 'names %r' % undefined, str(e), 'AttributeError does not name the undefined identifier'))
+        except Exception as e:
+            out.append(('names:undefined-class:%s' % type(e).__name__, 'AttributeError', repr(e)[:120], 'undefined name %r (container with variables that differ only in case) raised the wrong exception' % undefined))
+            break
     r = c.eval('X + 1', locals={'X': 100})
     if not (np.ndim(r) == 0 and r == 101):
         out.append(('names:locals-override', 101, repr(r), 'caller locals must override variables'))
